@@ -71,7 +71,10 @@ func hCopy(o Op) map[string]interface{} {
 			}
 			r = map[string]interface{}{"res": "panic", "crash": msg}
 		}
-		after, _ := snapshot(dstRoot, true)
+		after, serr := snapshot(dstRoot, true)
+		if serr != nil {
+			r["snaperr"] = serr.Error()
+		}
 		r["after"] = snapsToJSON(after)
 		st := lstatJSON(dstRoot)
 		r["dstroot"] = st
